@@ -282,6 +282,12 @@ var c06Producers = []c06Producer{
 	{"format %-*d", false, func(L int) string { return fmt.Sprintf("out := format(\"%%-*d\", %d, 7)", L) }},
 	{"format %0Nd", false, func(L int) string { return fmt.Sprintf("out := format(\"%%0%dd\", 7)", L) }},
 	{"format %.Nf", false, func(L int) string { return fmt.Sprintf("out := format(\"%%.%df\", 1.5)", L-2) }},
+	{"format %s%% (ends in a single byte)", false, func(L int) string { return fmt.Sprintf("out := format(\"%%s%%%%\", %q)", rep("a", L-1)) }},
+	{"format %s] of %d on bytes", false, func(L int) string {
+		return fmt.Sprintf("out := format(\"%%s%%d\", %q, bytes(\"ab\"))", rep("a", L-7))
+	}},
+	{"format bad verb )", false, func(L int) string { return fmt.Sprintf("out := format(\"%%s%%z\", %q, 7)", rep("a", L-8)) }},
+	{"format EXTRA )", false, func(L int) string { return fmt.Sprintf("out := format(\"%%s\", %q, 7)", rep("a", L-15)) }},
 	{"format %q", false, func(L int) string { return fmt.Sprintf("out := format(\"%%q\", %q)", rep("a", L-2)) }},
 	{"format %x string", false, func(L int) string {
 		return fmt.Sprintf("out := format(\"%%x\", %q)", rep("a", L/2)) + fmt.Sprintf(" + %q", rep("z", L%2))
